@@ -455,6 +455,15 @@ func decodeSeeds() []decodeSeed {
 		env := mcbor.Tg(18, mcbor.A(mcbor.B(protHeader("ES256")), mcbor.M(mcbor.U(4), mcbor.B([]byte("kid")), mcbor.U(1), mcbor.I(-7), mcbor.U(3), mcbor.T("application/eat")), mcbor.B(payload), mcbor.B(pat(64, 0xa0))))
 		out = append(out, decodeSeed{"envelope-unprotected-header", false, mcbor.Encode(env), env})
 	}
+	{
+		// a derived profile whose identifiers have other lengths (17-byte instance id, 16-byte implementation id)
+		lax := *cl[0]
+		lax.Canon, lax.Profile = ExtLaxIDName, sp(ExtLaxIDName)
+		lax.InstID, lax.ImplID = bp(instID(17, 1)), bp(pat(16, 0x10))
+		payload := mcbor.Encode(wireTree(&lax, true))
+		env := mcbor.Tg(18, mcbor.A(mcbor.B(protHeader("ES256")), mcbor.M(), mcbor.B(payload), mcbor.B(pat(64, 0xa0))))
+		out = append(out, decodeSeed{"envelope-ext-lax-id", false, mcbor.Encode(env), env})
+	}
 	// codec-level maps
 	pm := mcbor.M(mcbor.U(1), mcbor.I(-5), mcbor.U(2), mcbor.T("b"), mcbor.I(-3), mcbor.B([]byte{1, 2}), mcbor.U(4), mcbor.U(7), mcbor.U(5), mcbor.Bool(true), mcbor.U(6), mcbor.U(9))
 	out = append(out, decodeSeed{"codec-map", false, mcbor.Encode(pm), pm})
